@@ -742,6 +742,7 @@ pub fn families(thorough: bool) -> Vec<Family> {
 }
 
 pub struct Totals {
+    pub tie: AtomicU64,
     pub executed: AtomicU64,
     pub consumed_steps: AtomicU64,
     pub fully_consumed: AtomicU64,
@@ -766,6 +767,9 @@ pub fn run_case(ctx: &Ctx, case: &Case, rt: &mut tokio::runtime::Runtime, l: &mu
     }
     if let Some(t) = totals {
         t.executed.fetch_add(1, Ordering::Relaxed);
+        if case.tie {
+            t.tie.fetch_add(1, Ordering::Relaxed);
+        }
         t.consumed_steps.fetch_add(o.deliveries.len() as u64, Ordering::Relaxed);
         if o.deliveries.len() == planned.len() {
             t.fully_consumed.fetch_add(1, Ordering::Relaxed);
@@ -832,7 +836,7 @@ pub fn run_case(ctx: &Ctx, case: &Case, rt: &mut tokio::runtime::Runtime, l: &mu
 
 pub fn run(ctx: &Ctx) {
     let thorough = !ctx.quick();
-    let totals = Totals { executed: AtomicU64::new(0), consumed_steps: AtomicU64::new(0), fully_consumed: AtomicU64::new(0) };
+    let totals = Totals { tie: AtomicU64::new(0), executed: AtomicU64::new(0), consumed_steps: AtomicU64::new(0), fully_consumed: AtomicU64::new(0) };
     let mut space_total = 0u64;
     for fam in families(thorough) {
         let nseq = fam.sequences();
@@ -863,6 +867,7 @@ pub fn run(ctx: &Ctx) {
         space_total += done;
     }
     ctx.set("udp_schedules", json!(space_total));
+    ctx.set("udp_tie_schedules", json!(totals.tie.load(Ordering::SeqCst)));
     ctx.set("udp_steps_consumed", json!(totals.consumed_steps.load(Ordering::SeqCst)));
     ctx.states.fetch_add(totals.fully_consumed.load(Ordering::SeqCst), Ordering::SeqCst);
     ctx.transitions.fetch_add(totals.consumed_steps.load(Ordering::SeqCst), Ordering::SeqCst);
